@@ -324,8 +324,8 @@ pub fn parts() -> Vec<Box<dyn PartDyn>> {
         }),
         Box::new(Part::<crate::checks::c17::Case> {
             name: "hb-timing",
-            rule: "the connection behaves by the announced heartbeat: client and server options differ (one of them 0, or 1-2 s against 60 s), so the negotiated interval is not the client's own option; the C17 timing oracle (longest gap between client writes <= h + 0.9 s, silence fatal at 2h, nothing at all when 0 was announced) is applied on the real clock, all cases concurrently; every case non-trivial",
-            cases: |t| t.pick(16, 96),
+            rule: "the connection behaves by the announced heartbeat: client and server options differ (one of them 0, or 1-2 s against 60 s), so the negotiated interval is not the client's own option; in a third of the cases the transport stalls for 1.2-1.6 intervals with data queued and the client idles afterwards; the C17 timing oracle (longest gap between client writes <= h + 0.9 s, silence fatal at 2h, nothing at all when 0 was announced) is applied on the real clock, all cases concurrently; every case non-trivial",
+            cases: |t| t.pick(24, 96),
             threads: 48,
             strategy: hb_strat,
             exec: crate::checks::c17::exec,
@@ -349,8 +349,8 @@ fn hb_strat(_t: Tier) -> BoxedStrategy<crate::checks::c17::Case> {
         Just((1u8, 60u8)),
         Just((2u8, 1u8)),
     ];
-    (pair, any::<u8>(), prop_oneof![1 => Just(None), 1 => any::<u16>().prop_map(Some)], any::<bool>())
-        .prop_map(|((client_hb, server_hb), feed_pct, silent_after_ms, feed_other)| crate::checks::c17::Case {
+    (pair, any::<u8>(), prop_oneof![1 => Just(None), 1 => any::<u16>().prop_map(Some)], any::<bool>(), prop_oneof![2 => Just(None), 1 => any::<u8>().prop_map(Some)])
+        .prop_map(|((client_hb, server_hb), feed_pct, silent_after_ms, feed_other, stall_pct)| crate::checks::c17::Case {
             client_hb,
             server_hb,
             feed_pct,
@@ -358,6 +358,8 @@ fn hb_strat(_t: Tier) -> BoxedStrategy<crate::checks::c17::Case> {
             publish_pct: None,
             feed_other,
             slow_open_pct: None,
+            trickle: false,
+            stall_pct,
         })
         .boxed()
 }
